@@ -1100,7 +1100,7 @@ package ggql
 //@   props C01
 //@   check panic {C03}
 //@   check frame {C11}
-//@   assigns fresh, root.subscriptions, H_Field.ConType, H_Object.meta, H_FieldDef.goField, H_FieldDef.method, H_FieldDef.args, held, #res, #registered
+//@   assigns fresh, root.subscriptions, H_Subscription.etype, H_Field.ConType, H_Object.meta, H_FieldDef.goField, H_FieldDef.method, H_FieldDef.args, held, #res, #registered
 //@   ensures[locks-balanced]{C12,C20} held == old(held)
 //@   requires root != nil && exe != nil
 //@   requires root.schema != nil
